@@ -819,10 +819,15 @@ func c13case(c *runner.Ctx, i int) {
 		ns.script[tb] = []string{"slow-ok", "slow-ok", "slow-ok", "slow-ok"}
 		ns.mu.Unlock()
 		b := sess.NewBatch(gocql.UnloggedBatch)
-		b.SpeculativeExecutionPolicy(&gocql.SimpleSpeculativeExecution{NumAttempts: 2, TimeoutDelay: time.Millisecond})
+		// (the first execution must leave nothing behind that could still read the batch when its entries are
+		// changed: its speculative executions are a matter of timers, so their delay is out of reach for that one)
+		spol := &c13specDelay{attempts: 2}
+		spol.set(time.Hour)
+		b.SpeculativeExecutionPolicy(spol)
 		b.Entries = append(b.Entries, gocql.BatchEntry{Stmt: "RETRY " + ta, Idempotent: true})
 		var e1, e2 error
 		c.Guard("ExecuteBatch", func() { e1 = sess.ExecuteBatch(b) })
+		spol.set(time.Millisecond)
 		switch r.Intn(3) {
 		case 0:
 			b.Entries = append(b.Entries[:0], gocql.BatchEntry{Stmt: "RETRY " + tb, Idempotent: false})
@@ -853,8 +858,24 @@ func c13case(c *runner.Ctx, i int) {
 		na, nb := len(ns.arrivals[ta]), len(ns.arrivals[tb])
 		ns.mu.Unlock()
 		c.Add("batch_reused_after_entries_changed", 1)
-		if na > 1 {
-			c.Add("speculative_batch_executions_seen", 1)
+		if na != 1 {
+			c.Inconclusive("c13-reused-batch", fmt.Sprintf("the first execution (speculative delay: one hour) reached servers %d times", na))
+		}
+		if nb == 1 {
+			// and once more with idempotent entries only: now the speculative executions do happen
+			tc := fmt.Sprintf("rb%d_c", i)
+			ns.mu.Lock()
+			ns.script[tc] = []string{"slow-ok", "slow-ok", "slow-ok", "slow-ok"}
+			ns.mu.Unlock()
+			b.Entries = []gocql.BatchEntry{{Stmt: "RETRY " + tc, Idempotent: true}}
+			c.Guard("ExecuteBatch", func() { sess.ExecuteBatch(b) })
+			time.Sleep(20 * time.Millisecond)
+			ns.mu.Lock()
+			nc := len(ns.arrivals[tc])
+			ns.mu.Unlock()
+			if nc > 1 {
+				c.Add("speculative_batch_executions_seen", 1)
+			}
 		}
 		if nb > 1 {
 			c.Violation("C13:non-idempotent-executed-concurrently:reused-batch", fmt.Sprintf("a batch holding an entry not marked idempotent reached servers %d times: it was executed speculatively because the same Batch object was all-idempotent when it was executed before", nb),
@@ -977,3 +998,13 @@ func (o *c13numbers) ObserveBatch(ctx context.Context, b gocql.ObservedBatch) {
 	o.seen[b.Attempt]++
 	o.mu.Unlock()
 }
+
+// c13specDelay: a speculative execution policy whose delay the scenario can change between two executions.
+type c13specDelay struct {
+	attempts int
+	delay    int64
+}
+
+func (p *c13specDelay) set(d time.Duration)  { atomic.StoreInt64(&p.delay, int64(d)) }
+func (p *c13specDelay) Attempts() int        { return p.attempts }
+func (p *c13specDelay) Delay() time.Duration { return time.Duration(atomic.LoadInt64(&p.delay)) }
